@@ -217,6 +217,11 @@ def tsan_triage(text, benign):
                     return fr
             return None
         a, c = inner_repo(first), inner_repo(second)
+        # both accesses made directly by harness code: a harness bug, not the library's
+        if first and second and _is_harness(first[0][1]) and _is_harness(second[0][1]):
+            stats["harness_only"] += 1
+            found.append(("tsan:harness-race:" + first[0][0], b[:3000]))
+            continue
         if a is None and c is None:
             allh = [fr for fr in first + second if _is_harness(fr[1])]
             if allh:
